@@ -108,7 +108,8 @@ def set_params(cycles, ps):
         ncy = []
         for o in sorted(cy, key=lambda o: o[2][0]):
             k = len(o[3])
-            ncy.append((o[0], o[1], o[2], tuple(ps[:k]), o[4], o[5]))
+            # recursively: a nested block shows its inner operations with the parameters it is given
+            ncy.append((o[0], o[1], o[2], tuple(ps[:k]), o[4], set_params(o[5], ps[:k]) if o[0] else o[5]))
             ps = ps[k:]
         out.append(tuple(ncy))
     return tuple(out)
@@ -634,7 +635,7 @@ def existing_points(c: Circuit):
 CALLS = ['append', 'append', 'insert', 'insert', 'pop', 'pop_pt', 'replace', 'replace_same', 'batch_replace',
          'append_circuit', 'insert_circuit', 'replace_with_circuit', 'unfold', 'extend', 'batch_pop', 'compress',
          'unfold_all', 'append_qudit', 'insert_qudit', 'pop_qudit', 'renumber', 'iadd', 'imul', 'add', 'mul',
-         'fold', 'copy', 'clear', 'batch_unfold', 'pickle']
+         'fold', 'copy', 'clear', 'batch_unfold', 'pickle', 'reparam_block', 'reparam_block']
 
 
 def gen_call(rng, c: Circuit, valid_p=0.88):
@@ -716,6 +717,14 @@ def gen_call(rng, c: Circuit, valid_p=0.88):
         else:
             sub = rand_sub(rng, (2,))
         return ('replace_with_circuit', pt, sub, rng.random() < 0.3)
+    if kind == 'reparam_block':
+        # give a block operation new parameters through the OUTER circuit (as set_params / instantiate do): the
+        # CircuitGate's stored template keeps its old values, the operation's own parameters are what counts
+        bl = [(cy, q0, op) for cy, q0, op in pts if isinstance(op.gate, CircuitGate) and op.num_params > 0]
+        if not bl:
+            return ('noop',)
+        cy, q0, op = rng.choice(bl)
+        return ('reparam_block', (cy, q0), rand_params(rng, op.num_params))
     if kind in ('unfold', 'batch_unfold'):
         bl = [(cy, q0) for cy, q0, op in pts if isinstance(op.gate, CircuitGate)]
         if kind == 'unfold':
@@ -802,6 +811,10 @@ def apply_impl(c: Circuit, call) -> Outcome:
             return Outcome('O', snap_op(c.pop(call[1])))
         if k == 'batch_pop':
             return Outcome('C', snap(c.batch_pop(list(call[1]))))
+        if k == 'reparam_block':
+            old = c.get_operation(call[1])
+            c.replace(call[1], Operation(old.gate, list(old.location), [float(p) for p in call[2]]))
+            return Outcome('U')
         if k == 'replace':
             c.replace(call[1], op_from_snap(call[2]))
             return Outcome('U')
